@@ -176,7 +176,19 @@ func cgSwRequest(s *sql.SwappableDB, q *proto.Request, xTime bool) ([]*proto.Exe
 // to StmtReadOnly has reached the database.
 func cgSwStmtReadOnly(s *sql.SwappableDB, q string) (bool, error) {
 	cgD.texts = append(cgD.texts, q)
-	return !cgIsWrite(q) && !cgIsGuarded(q), nil
+	return cgModelReadOnly(q), nil
+}
+
+// cgModelReadOnly: what sqlite3_stmt_readonly answers for the FIRST statement of the text (that is
+// what gets prepared): not read-only are the INSERTs and the PRAGMAs that compile to a journal-mode
+// change or a checkpoint; the PRAGMAs SQLite carries out while preparing count as read-only
+// (checked against SQLite by the native test TestVerifC15bReadOnlyModel).
+func cgModelReadOnly(q string) bool {
+	switch q {
+	case cgHarmless[1], cgHarmless[2], cgGuarded[1], cgGuarded[4], cgGuarded[6]:
+		return false
+	}
+	return true
 }
 
 // ---------------------------------------------------------------------------------------------
@@ -377,7 +389,7 @@ var cgCloseNative func(d *sql.SwappableDB)
 
 // cgStateNative: the guarded settings of the read-write and the read-only connections and a digest
 // of the main database file (with wal_autocheckpoint=0 it changes only when a checkpoint runs)
-var cgStateNative func(d *sql.SwappableDB) string
+var cgStateNative func(d *sql.SwappableDB, before bool) string
 
 // levels: the five values of proto.ConsistencyLevel (none, weak, strong, auto, linearizable = 0..4)
 var cgLevels = []proto.ConsistencyLevel{
@@ -407,23 +419,40 @@ func (sc *cgScenario) close() {
 // cgRequest chooses the request: 1..maxN statements, at most one of them (any position) a guarded
 // text, the others harmless, every statement with one of the parameter shapes; Transaction,
 // RollbackOnError and Timings are free.
+//
+// What is enumerated (the rest of this function only keeps the product affordable):
+//   guarded statement: every parameter shape; every text when it is the only statement (and, in the
+//     thorough tier, in requests of two); else the plain text and the multi-statement text;
+//   harmless statements: a request of one: every (text, shape) pair (quick: the six companions);
+//     next to a guarded statement or to each other: the first four companions (thorough, requests
+//     of two: all six; harmless requests of three: the first three).
 func cgRequest(maxN int) (*proto.Request, bool, bool) {
+	thorough := verifTier() == 1
 	n := 1 + verifChoice("n", maxN)
 	g := verifChoice("guardedAt", n+1) - 1 // -1: no guarded statement
-	// the full product of (text, parameter shape) for every companion where it is affordable
-	full := n == 1 || (n == 2 && verifTier() == 1)
+	nComp := 4
+	switch {
+	case n == 1 || (n == 2 && thorough):
+		nComp = len(cgCompanions)
+	case n == 3 && g < 0:
+		nComp = 3
+	}
 	req := &proto.Request{}
 	for i := 0; i < n; i++ {
 		st := &proto.Statement{}
 		switch {
 		case i == g:
-			st.Sql = cgGuarded[verifChoice("guardedText", len(cgGuarded))]
+			if n == 1 || (n == 2 && thorough) {
+				st.Sql = cgGuarded[verifChoice("guardedText", len(cgGuarded))]
+			} else {
+				st.Sql = cgGuarded[[]int{0, 6}[verifChoice("guardedText", 2)]]
+			}
 			st.Parameters = cgParams(verifChoice(verifName("params", i), cgNumParamShapes))
-		case full:
+		case n == 1 && thorough:
 			st.Sql = cgHarmless[verifChoice(verifName("text", i), len(cgHarmless))]
 			st.Parameters = cgParams(verifChoice(verifName("params", i), cgNumParamShapes))
 		default:
-			c := cgCompanions[verifChoice(verifName("companion", i), len(cgCompanions))]
+			c := cgCompanions[verifChoice(verifName("companion", i), nComp)]
 			st.Sql, st.Parameters = cgHarmless[c[0]], cgParams(c[1])
 		}
 		req.Statements = append(req.Statements, st)
@@ -446,21 +475,23 @@ func cgSetup(withLevel, guarded bool) *cgScenario {
 	// role and level are free. For a request with a guarded statement they are symbolic: a path
 	// splits on them only where the code under test looks at them - when the guard refuses the
 	// request, nowhere. For a harmless request, which is served, every value is a path of its own.
+	// (Quick tier, harmless requests: a voter, no strong read made yet in this term.)
 	strongRead := uint64(0)
 	if guarded {
 		w.leader = verifBool("leader")
 		if withLevel {
-			sc.level = proto.ConsistencyLevel(verifInt("level", 0, len(cgLevels)-1))
-			strongRead = uint64(verifInt("strongReadInThisTerm", 0, 1))
+			sc.level = proto.ConsistencyLevel(verifU8("level") % uint8(len(cgLevels)))
+			strongRead = uint64(verifU8("strongReadInThisTerm") & 1)
 		}
 	} else {
 		w.leader = verifChoice("leader", 2) == 0
 		if withLevel {
 			sc.level = cgLevels[verifChoice("level", len(cgLevels))]
-			if sc.level == proto.ConsistencyLevel_LINEARIZABLE {
+			if sc.level == proto.ConsistencyLevel_LINEARIZABLE && verifTier() == 1 {
 				strongRead = uint64(verifChoice("strongReadInThisTerm", 2))
 			}
 		}
+		w.voterChosen = verifTier() == 0
 	}
 	w.known = true
 
@@ -492,7 +523,7 @@ func cgSetup(withLevel, guarded bool) *cgScenario {
 		s.db = &sql.SwappableDB{}
 	} else {
 		s.db = cgOpenNative()
-		sc.state0 = cgStateNative(s.db)
+		sc.state0 = cgStateNative(s.db, true)
 	}
 	sc.s = s
 	w.fsm = NewFSM(s)
@@ -514,7 +545,7 @@ func (sc *cgScenario) reachedDatabase() bool {
 	if verifSymbolic() {
 		return cgAnyGuarded(cgD.texts)
 	}
-	return cgStateNative(sc.s.db) != sc.state0
+	return cgStateNative(sc.s.db, false) != sc.state0
 }
 
 const cgDocumentedError = "disallowed pragma"
